@@ -11,6 +11,8 @@ import inspect
 import textwrap
 
 from btclib.curves import secp256k1
+from btclib.curves import curve as curve_mod
+from btclib.curves import curve_group as curve_group_mod
 from btclib.ecc import dsa, musig2, ssa
 from btclib import psbt_signer
 from btclib.wallet import wallet as wallet_mod
@@ -257,6 +259,44 @@ def wallet_record_overwrites():
     return True
 
 
+# ---------------------------------------------------------------------------- curve identity key
+_FIELD = {"self.p": ["p"], "self._a": ["a"], "self._b": ["b"], "self.n": ["n"], "self.cofactor": ["h"],
+          "self.G[0]": ["gx"], "self.G[1]": ["gy"], "*self.G": ["gx", "gy"]}
+
+
+def curve_eq_key(cls, base=None):
+    """the components `_eq_key` returns, in order (a `*super()._eq_key()` splices the base class's)."""
+    body, _ = _body(cls._eq_key)
+    if len(body) != 1 or not isinstance(body[0], ast.Return):
+        raise Unrecognised(f"{cls.__name__}._eq_key: " + "; ".join(_u(s) for s in body))
+    v = body[0].value
+    elts = v.elts if isinstance(v, ast.Tuple) else [v]
+    out = []
+    for e in elts:
+        t = _u(e)
+        if t == "*super()._eq_key()" and base is not None:
+            out += base
+        elif t in _FIELD:
+            out += _FIELD[t]
+        else:
+            raise Unrecognised(f"{cls.__name__}._eq_key returns `{t}`")
+    return out
+
+
+def curve_eq_hash_use_key():
+    eq, _ = _body(curve_group_mod.CurveGroup.__eq__)
+    hs, _ = _body(curve_group_mod.CurveGroup.__hash__)
+    eq_ok = _u(eq[-1]) == "return self._eq_key() == other._eq_key()"
+    hash_ok = [_u(s) for s in hs] == ["return hash(self._eq_key())"]
+    own = all(n not in vars(curve_mod.Curve) for n in ("__eq__", "__hash__"))   # Curve inherits both
+    return eq_ok and own, hash_ok and own
+
+
+def serves_compares_curve():
+    body, _ = _body(curve_mod._libsecp256k1_serves)
+    return any(isinstance(s, ast.If) and _u(s.test) == "ec != secp256k1" and _u(s.body[0]) == "return False" for s in body)
+
+
 def _lst(ty, items):
     return "[" + ", ".join("." + i for i in items) + f"]"
 
@@ -281,6 +321,16 @@ def constants():
     txt += f"def softwareSignerCloseSets : Bool := {b(cs)}\n"
     txt += f"def softwareSignerAssertOpenRaises : Bool := {b(ao)}\n"
     txt += f"def softwareSignerInitOpen : Bool := {b(io)}\n\n"
+    grp = curve_eq_key(curve_group_mod.CurveGroup)
+    crv = curve_eq_key(curve_mod.Curve, grp)
+    eq_ok, hash_ok = curve_eq_hash_use_key()
+    txt += "/-- what `CurveGroup._eq_key` / `Curve._eq_key` return: `__eq__`, `__hash__`, hence every `lru_cache` keyed\n"
+    txt += "    on a curve and the `ec != secp256k1` test of `_libsecp256k1_serves`, see a curve through this tuple -/\n"
+    txt += f"def curveGroupEqKey : List CurveField := {_lst('CurveField', grp)}\n"
+    txt += f"def curveEqKey : List CurveField := {_lst('CurveField', crv)}\n"
+    txt += f"def curveEqIsKeyEq : Bool := {b(eq_ok)}\n"
+    txt += f"def curveHashIsKeyHash : Bool := {b(hash_ok)}\n"
+    txt += f"def servesComparesCurve : Bool := {b(serves_compares_curve())}\n\n"
     txt += "/-- top-level statements of `RangedWallet.address`, in source order -/\n"
     ws = ["(" + s + ")" if " " in s else s for s in wallet_address_steps()]
     txt += "def walletAddress : List WalletStep := " + _lst("WalletStep", ws).replace(".(", "(.") + "\n"
